@@ -55,7 +55,7 @@ let chk c = if check_ok c then 1 else 0
 
 let cls_of = function None -> 0 | Some EParams -> 1 | Some ELegalizer -> 2 | Some EInternal -> 3 | Some EExport -> 4
                       | Some EUpdating -> 6 | Some (ECallback k) -> 100 + int_of_nat k
-let res_code = function Accepted -> 0 | RefusedInUse -> 1 | RejectedArgs -> 2 | Aborted -> 3 | CallDone e -> 1000 + cls_of e
+let res_code = function Accepted -> 0 | RefusedInUse -> 1 | RejectedArgs -> 2 | CallDone e -> 1000 + cls_of e
 
 type item = ISet of setter | ICall of stage * oracle * item list list * bool * int
 
